@@ -9,7 +9,7 @@ from harness import lib, e2e
 
 PID = "C02"
 PROPS_V = "props/C02.v"
-TABLES = ()
+TABLES = ("HintImportTable",)
 RULE = ("correspondence: the extracted Imports state machine vs the real Imports object along random append/remove histories (matched "
         "removes, aliases, dotted names, re-adding after deletion), comparing dict order, sets and aliases; falsifier: schemas from a "
         "grammar of the constructs that bind or use names (unions, containers, optional, $ref cycles, inheritance chains inside cycles, "
@@ -91,6 +91,33 @@ def correspond(ctx):
             bad += 1
             if bad <= 4:
                 ctx.tie_broken("correspondence", "Imports model != code", json.dumps({"ops": ops, "code": real, "model": model, "ops_ok": ok}), hint=ops)
+    # annotations vs imports of one IR tree: the extracted imports_of / needs vs the real DataType.all_imports and type_hint
+    from harness.props import c13
+    import re as _re
+    TYPING = {"List", "Sequence", "Set", "FrozenSet", "Dict", "Mapping", "Union", "Literal"}
+    trees = [c13.rand_tree(rng, rng.choice([1, 2, 3])) for _ in range(ctx.n(250, 4000))]
+    jobs = [(t, sp) for t in trees for sp in ([(0, 0, 0), (1, 1, 1), (0, 1, 1), (1, 0, 0), (0, 1, 0), (0, 0, 1), (1, 1, 0), (1, 0, 1)] if ctx.thorough else [rng.choice([(0, 0, 0), (1, 1, 1), (0, 1, 1), (1, 0, 0), (0, 1, 0), (0, 0, 1)])])]
+    outs = drv.batch([f"himp\t{sp[0]}\t{sp[1]}\t{sp[2]}\t{t.enc()}" for t, sp in jobs])
+    for (t, sp), out in zip(jobs, outs):
+        ctx.count("eval_hint_imports")
+        ctx.nontrivial(("hi", t.enc(), sp))
+        if "\t" not in out:
+            bad += 1
+            ctx.tie_broken("correspondence", "driver answer " + out[:100], t.enc())
+            continue
+        m_imp, m_need = (set(lib.dec_str(x) for x in part.split(";") if x) if part else set() for part in out.split("\t"))
+        dt = t.build(sp, {})
+        try:
+            hint = dt.type_hint
+            real_imp = {i.import_ for i in dt.all_imports} & TYPING
+        except Exception as e:  # noqa: BLE001
+            continue
+        real_need = set(_re.findall(r"[A-Za-z_][A-Za-z_0-9]*", _re.sub(r"'[^']*'", "", hint))) & TYPING
+        if m_imp != real_imp or m_need != real_need:
+            bad += 1
+            if bad <= 6:
+                ctx.tie_broken("correspondence", f"imports / needed names of a type tree, spelling {sp}: code {sorted(real_imp)} / {sorted(real_need)} ({hint}), model {sorted(m_imp)} / {sorted(m_need)}",
+                               json.dumps(t.to_json()))
     ctx.count("disagreements", bad)
     ctx.sample({"ops": hist[0]})
 
@@ -374,6 +401,21 @@ def falsify(ctx):
                 if seen <= 8:
                     ctx.violation(f"member:{kind}:{sorted(o)}:{json.dumps(sch, sort_keys=True)}", f"{kind} {o}: {why} -- schema {json.dumps(sch)[:300]}",
                                   {"schema": sch, "kind": kind, "opts": o, "why": why})
+    # containers x spellings: every typing / collections name of an annotation must be bound (lists, unique-item sets, maps, unions, literals)
+    csch = {"title": "M", "type": "object", "definitions": {}, "properties": {
+        "l": {"type": "array", "items": {"type": "string"}}, "s": {"type": "array", "uniqueItems": True, "items": {"type": "integer"}},
+        "d": {"type": "object", "additionalProperties": {"type": "array", "uniqueItems": True, "items": {"type": "string"}}},
+        "u": {"anyOf": [{"type": "array", "items": {"type": "integer"}}, {"type": "string", "enum": ["a", "b"]}]}}}
+    import itertools
+    for kind in e2e.KINDS:
+        for uo, sc, gc, us in itertools.product((0, 1), repeat=4):
+            o = [n for n, f in (("use_union_operator", uo), ("use_standard_collections", sc), ("use_generic_container_types", gc)) if f]
+            ctx.count("eval_e2e")
+            why = check_schema(csch, kind, o + (["use_unique_items_as_set"] if us else []))
+            if why:
+                seen += 1
+                if seen <= 8:
+                    ctx.violation(f"containers:{kind}:{o}:{us}", f"{kind} {o} unique_items_as_set={us}: {why}", {"schema": csch, "kind": kind, "opts": o + (["use_unique_items_as_set"] if us else []), "why": why})
     ctx.sample({"schema": cases[0][0], "kind": cases[0][1], "opts": cases[0][2]})
 
 
